@@ -132,4 +132,10 @@ def compile_many(jobs, workers=12, timeout=120):
             except Exception as e:
                 res[i] = {"raised": f"worker: {e!r}"}
         pool.terminate()
+    # the constexpr child process has a 1 s limit: under the load of the pool it can time out.
+    # Those compiles are repeated one at a time.
+    for i, r in enumerate(res):
+        e = r.get("error") if isinstance(r, dict) else None
+        if isinstance(e, dict) and "Timeout during evaluating constexpr" in str(e.get("description", "")):
+            res[i] = compile_one(jobs[i])
     return res
